@@ -527,17 +527,28 @@ func spec_steady(h *Session, p []byte, s specFrame) bool {
 	return h.HostTable.Table[a.IP].Online
 }
 
-//verif:props C01 C02 C08 C10 C16
+//verif:props C01 C02 C08 C10 C16 C19
 //verif:timeout 60s
-func verif_contract_Session_Parse(h *Session, p []byte) (Frame, error) {
+func verif_contract_Session_Parse(h *Session, p []byte, other uint16) (Frame, error) {
 	vRequires(spec_session_wf(h) && spec_icmptable_ok())
 	vStrictLen()
 	vModifiesHeap()
 	vBorrowed(p) // C10: nothing retained by the session is a view of the packet buffer
 	s := spec_parse(p)
 	steady := spec_steady(h, p, s)
+	// C19: is the frame an echo reply of its own family (IPv4 / type 0, IPv6 / type 129)? Read before the call.
+	replyByte := false
+	if (s.id == PayloadICMP4 || s.id == PayloadICMP6) && 14 <= s.payload && s.payload < len(p) {
+		replyByte = (s.id == PayloadICMP4 && p[s.payload] == 0) || (s.id == PayloadICMP6 && p[s.payload] == 129)
+	}
+	_, oin0 := icmpTable.table[other]
 	a0 := vAllocs()
 	frame, err := h.Parse(p)
+	// C19: a frame that is rejected, or is not an echo reply of its own family, completes no pending ping
+	if err != nil || !replyByte {
+		_, oin1 := icmpTable.table[other]
+		vEnsures(oin1 == oin0)
+	}
 	// C16: a well-formed frame from a host that is already tracked and online is parsed without allocating
 	if err == nil && steady {
 		a1 := vAllocs()
